@@ -52,6 +52,25 @@ pub mod stdspec {
     pub assume_specification<T, const N: usize> [<[T; N] as AsRef<[T]>>::as_ref] (a: &[T; N]) -> (r: &[T])
         ensures r@ == a@;
 
+    // the UTF-8 octets of a String (uninterpreted; String::as_bytes and <String as AsRef<[u8]>>::as_ref both return them)
+    pub uninterp spec fn string_bytes(s: &String) -> Seq<u8>;
+    pub assume_specification [String::as_bytes] (s: &String) -> (r: &[u8])
+        ensures r@ == string_bytes(s);
+    pub assume_specification [<String as AsRef<[u8]>>::as_ref] (s: &String) -> (r: &[u8])
+        ensures r@ == string_bytes(s);
+
+    // `==` / `!=` between octet slices (and slice vs Vec) compare the octets (std: element-wise PartialEq)
+    pub broadcast proof fn axiom_slice_ref_eq(a: &[u8], b: &[u8])
+        ensures
+            #[trigger] <&[u8] as vstd::std_specs::cmp::PartialEqSpec<&[u8]>>::eq_spec(&a, &b) == (a@ == b@),
+            <&[u8] as vstd::std_specs::cmp::PartialEqSpec<&[u8]>>::obeys_eq_spec(),
+    { admit(); }
+    pub broadcast proof fn axiom_slice_vec_eq(a: &[u8], b: Vec<u8>)
+        ensures
+            #[trigger] <&[u8] as vstd::std_specs::cmp::PartialEqSpec<Vec<u8>>>::eq_spec(&a, &b) == (a@ == b@),
+            <&[u8] as vstd::std_specs::cmp::PartialEqSpec<Vec<u8>>>::obeys_eq_spec(),
+    { admit(); }
+
     // Rust language invariant: no slice is longer than isize::MAX octets
     pub broadcast proof fn axiom_slice_len_bound(s: &[u8])
         ensures #[trigger] s@.len() <= isize::MAX
@@ -61,5 +80,7 @@ pub mod stdspec {
         axiom_cow_deref_u8,
         axiom_slice_len_bound,
         axiom_cloned_u8,
+        axiom_slice_ref_eq,
+        axiom_slice_vec_eq,
     }
 }
